@@ -525,8 +525,17 @@ def _check_setters_getters(ctx, r, objs):
         gobj = objs[gfm[0]]
         family_objs = [nm for nm, o in objs.items() if (o.get('exp_bits'), o.get('mantissa_bits'), o.get('bias'), o['__class__']) ==
                        (gobj.get('exp_bits'), gobj.get('mantissa_bits'), gobj.get('bias'), gobj['__class__'])]
-        called = {x.func.value.id for x in own_walk(h.node) if isinstance(x, ast.Call) and isinstance(x.func, ast.Attribute)
-                  and x.func.attr.startswith('float_to_int') and isinstance(x.func.value, ast.Name)}
+        called = set()
+        for x in own_walk(h.node):
+            if isinstance(x, ast.Call) and isinstance(x.func, ast.Attribute) and x.func.attr.startswith('float_to_int') and isinstance(x.func.value, ast.Name):
+                rcv = x.func.value.id
+                if rcv in objs:
+                    called.add(rcv)
+                else:
+                    # a local chosen among the format objects (`fmt = A if ... else B`)
+                    for y in own_walk(h.node):
+                        if isinstance(y, ast.Assign) and len(y.targets) == 1 and isinstance(y.targets[0], ast.Name) and y.targets[0].id == rcv:
+                            called |= set(_fmt_names_in(y.value, objs))
         unused = [nm for nm in family_objs if nm not in called]
         if unused:
             r.fail(h.key, f"{e['name']}: {', '.join(unused)} never consulted", f"'{e['name']}' has a table per overflow mode ({', '.join(sorted(family_objs))}) but the "
@@ -559,10 +568,12 @@ def _check_setters_getters(ctx, r, objs):
         # overflow-mode selection
         modes = {objs[nm].get('mxfp_overflow') for nm in hfm}
         if len(hfm) > 1 and not unused:
-            sel = [n for n in own_walk(h.node) if isinstance(n, ast.If) and 'mxfp_overflow' in ast.unparse(n.test)]
+            sel = [n for n in own_walk(h.node) if isinstance(n, (ast.If, ast.IfExp)) and 'mxfp_overflow' in ast.unparse(n.test)]
             if len(sel) != 1:
                 raise AnalysisError(f'{h.key}: overflow-mode selection not recognised')
             t, sel_body, sel_else = G.pos_if(sel[0])
+            if isinstance(sel[0], ast.IfExp):
+                sel_body, sel_else = [ast.Expr(value=sel_body)], [ast.Expr(value=sel_else)]
             if not (isinstance(t, ast.Compare) and isinstance(t.ops[0], ast.Eq) and isinstance(t.comparators[0], ast.Constant)):
                 raise AnalysisError(f'{h.key}: overflow-mode test not recognised')
             val = t.comparators[0].value
